@@ -148,7 +148,6 @@ func TestC16(t *testing.T) {
 	}
 }
 
-
 // ---- the same listing through the command line tool's -A option
 
 type cliListCase struct {
@@ -245,6 +244,6 @@ func TestC16_CommandLine(t *testing.T) {
 	hx.Run(t, hx.Prop[cliListCase]{
 		ID: "C16", Sub: "cli_A", Checks: hx.Scale(250, 16000),
 		Rule: "the same property through the command line: a freshly built cmd/gmars is run with -A (and -s, -l, optionally -8) on a generated warrior file, once or twice on the command line; each printed listing must be readable by the independent listing reader and denote the warrior (fields modulo M, entry point), stderr empty, exit status 0. Non-trivial: at least two instructions; distinct by case hash.",
-		Gen: genCliListCase, Judge: judgeCliListCase,
+		Gen:  genCliListCase, Judge: judgeCliListCase,
 	})
 }
